@@ -60,7 +60,12 @@ def decls_for(domain, odd_bounds=False, via=None):
     kw = {"dom": domain}
     if domain == "integer":
         # "fractional": the relaxation's optimum sits on a fractional bound (rounding the box inwards is not the relaxation)
-        kw.update(lb=0.5, ub=2.75) if odd_bounds == "fractional" else kw.update(lb=0.0, ub=3.0)
+        if odd_bounds == "fractional":
+            kw.update(lb=0.5, ub=2.75)
+        elif odd_bounds == "large":
+            kw.update(lb=0.0, ub=1e6)  # quantities in the tens of thousands: a fractional optimum there is still fractional
+        else:
+            kw.update(lb=0.0, ub=3.0)
     elif odd_bounds in (True, "odd"):
         kw.update(lb=-5.0, ub=7.0)  # binary must still come out as [0, 1]
     return [
@@ -131,15 +136,16 @@ def make_problem(route, domain, shape, nonlinear, odd):
 
     lin_all = total([el_node(i, nm) for i, nm in enumerate(els)])
     cons = []
+    big = 83332.62 if odd == "large" else 0.0
     if shape == "all-discrete":
         obj = total(terms)
-        cons.append(["rel", ">=", lin_all, ["raw", 0.5, "float"], "direct"])
+        cons.append(["rel", ">=", lin_all, ["raw", 0.5 + big, "float"], "direct"])
     elif shape == "mixed":
         obj = total(terms + [tt])
-        cons.append(["rel", ">=", ["bin", "+", lin_all, t], ["raw", 0.75, "float"], "direct"])
+        cons.append(["rel", ">=", ["bin", "+", lin_all, t], ["raw", 0.75 + big, "float"], "direct"])
     else:
         obj = tt
-        cons.append(["rel", ">=", ["bin", "+", lin_all, t], ["raw", 1.25, "float"], "direct"])
+        cons.append(["rel", ">=", ["bin", "+", lin_all, t], ["raw", 1.25 + big, "float"], "direct"])
     prob = {"decls": decls, "objective": obj, "sense": "min", "constraints": cons}
     if odd in ("pinned-some", "pinned-all"):
         # discrete variables fixed through their bounds after the model was written (a branch-and-bound node): still discrete
@@ -159,7 +165,7 @@ def info(tier):
         "(problem, method) hashes",
         "required_cells": [f"route:{r}" for r in ROUTES] + [f"method:{m}" for m in METHODS] + [f"shape:{s}" for s in SHAPES]
         + ["domain:integer", "domain:binary", "strict-raises", "warning-names", "relaxation-equals-twin", "binary-bounds", "view-domain",
-                             "repeat:strict-after-solve", "repeat:warning-after-solve", "bounds:plain", "bounds:odd", "bounds:fractional", "bounds:pinned-some", "bounds:pinned-all"],
+                             "repeat:strict-after-solve", "repeat:warning-after-solve", "bounds:plain", "bounds:odd", "bounds:fractional", "bounds:pinned-some", "bounds:pinned-all", "bounds:large", "non-strict-spelling:omitted", "non-strict-spelling:False", "non-strict-spelling:None", "non-strict-spelling:0"],
         "assumptions": ["the relaxation twin is the same recipe with domain=continuous (binary -> [0,1]) solved in the twin process with the same method"],
     }
 
@@ -246,7 +252,10 @@ def run_cell(rec, seams, twin, route, domain, shape, method, nonlinear, odd):
     try:
         with warnings.catch_warnings(record=True) as wl:
             warnings.simplefilter("always")
-            sol = P.solve(method=method, **kw)
+            # "not strict" in every spelling a caller may use: omitted, False, None (e.g. cfg.get("strict")), 0
+            falsy = [{}, {"strict": False}, {"strict": None}, {"strict": 0}][(len(route) + len(method) + len(shape) + int(bool(nonlinear))) % 4]
+            rec.cells["non-strict-spelling:" + (repr(falsy.get("strict")) if falsy else "omitted")] += 1
+            sol = P.solve(method=method, **kw, **falsy)
     except Exception as ex:
         bad("non-strict-solve-raises:" + type(ex).__name__, error=repr(ex)[:200])
         return
@@ -347,7 +356,7 @@ def run(ctx, rec):
                             if rec.out_of_time():
                                 rec.inconclusive.append("time budget reached before the cell matrix was finished")
                                 return
-                            modes = ["plain", "fractional", "pinned-some", "pinned-all"] if domain == "integer" else ["plain", "odd", "pinned-some", "pinned-all"]
+                            modes = ["plain", "fractional", "pinned-some", "large"] if domain == "integer" and (i // 5) % 2 else ["plain", "fractional", "pinned-some", "pinned-all"] if domain == "integer" else ["plain", "odd", "pinned-some", "pinned-all"]
                             bm = modes[(i // 3 + mi) % 4]
                             rec.cells["bounds:" + bm] += 0
                             run_cell(rec, seams, twin, route, domain, shape, method, nonlinear, odd=(False if bm == "plain" else bm))
